@@ -7,12 +7,21 @@ from . import common as C
 
 PENDING_REASON = {}
 
+def claimed_ids():
+    """properties whose check is complete and reviewed (one id per line in claimed.txt)"""
+    path = os.path.join(C.ROOT, "claimed.txt")
+    return [l.strip() for l in open(path) if l.strip() and not l.startswith("#")]
+
 
 def main():
     props = [json.loads(l) for l in open(os.path.join(C.ROOT, "properties.jsonl"))]
     checks, na = [], []
     for p in props:
         pid = p["id"]
+        if pid not in claimed_ids():
+            na.append({"property_id": pid, "reason": PENDING_REASON.get(
+                pid, "check not built yet in this round (planned in DESIGN.md section 6); not claimed")})
+            continue
         try:
             mod = importlib.import_module("vlib." + pid.lower())
         except ImportError:
